@@ -84,7 +84,7 @@ Effective(ds, name, seen) ==
     ELSE LET base == IF d.ext \in seen \cup {name} \/ ~(d.ext = "decimal" \/ Defined(ds, d.ext))
                      THEN Decimal ELSE Effective(ds, d.ext, seen \cup {name}) IN
          [sys |-> base.sys, n |-> base.n, first |-> base.first, add |-> base.add, syms |-> base.syms,
-          rng |-> IF d.rng.auto /\ ~d.rngset THEN base.rng ELSE d.rng,
+          rng |-> IF d.rngset THEN d.rng ELSE base.rng,
           pad |-> IF d.pad = 0 THEN base.pad ELSE d.pad,
           neg |-> IF d.neg = "" THEN base.neg ELSE d.neg,
           fb  |-> IF d.fb = "" THEN base.fb ELSE d.fb, ext |-> ""]
@@ -128,8 +128,10 @@ NegSuf(e) == IF e.neg = "paren" THEN <<")">> ELSE <<>>
 Rng(a, lo, hi) == [auto |-> a, lo |-> lo, hi |-> hi]
 Base(sys, n, first, add, rng, pad, neg, fb) ==
   [sys |-> sys, n |-> n, first |-> first, add |-> add, rng |-> rng, rngset |-> ~rng.auto, pad |-> pad, neg |-> neg, fb |-> fb, ext |-> "", mb |-> FALSE]
-Ext(target, pad, neg, fb) ==
-  [sys |-> "extends", n |-> 0, first |-> 1, add |-> 0, rng |-> Rng(TRUE, 0, 0), rngset |-> FALSE, pad |-> pad, neg |-> neg, fb |-> fb, ext |-> target]
+\* rs: "unset" (range inherited from the extended style) | "auto" (an explicit `range: auto`)
+ExtR(target, pad, neg, fb, rs) ==
+  [sys |-> "extends", n |-> 0, first |-> 1, add |-> 0, rng |-> Rng(TRUE, 0, 0), rngset |-> rs = "auto", pad |-> pad, neg |-> neg, fb |-> fb, ext |-> target, mb |-> FALSE]
+Ext(target, pad, neg, fb) == ExtR(target, pad, neg, fb, "unset")
 Ranges == {Rng(TRUE, 0, 0), Rng(FALSE, 2, 4), Rng(FALSE, -2, 2)}
 YCyc == Base("cyclic", 2, 1, 0, Rng(TRUE, 0, 0), 0, "", "")
 YNum == Base("numeric", 2, 1, 0, Rng(FALSE, 0, 5), 2, "paren", "x")
@@ -149,7 +151,8 @@ Scenarios ==
          {[x |-> Base(s.sys, s.n, s.first, s.add, r, 0, "", "y"), y |-> yy] :
             s \in Systems, r \in Ranges, yy \in {YCyc, YNum, Undefined}}
     [] Family = "extends" ->
-         {[x |-> Ext(t, p, ng, fb), y |-> yy] : t \in {"y", "x", "zz", "decimal"}, p \in {0, 3}, ng \in {"", "paren"}, fb \in {"", "y"},
+         {[x |-> ExtR(t, p, ng, fb, rs), y |-> yy] : t \in {"y", "x", "zz", "decimal"}, p \in {0, 3}, ng \in {"", "paren"}, fb \in {"", "y"},
+            rs \in {"unset", "auto"},
             yy \in {YCyc, YNum, Undefined, Ext("x", 0, "", ""), Base("alphabetic", 3, 1, 0, Rng(TRUE, 0, 0), 0, "m", ""),
                     Base("additive", 0, 1, 2, Rng(TRUE, 0, 0), 0, "", "")}}
 
